@@ -97,20 +97,18 @@ private theorem floatFracPart_nodot (t : List Char) (h : ∀ r, t ≠ '.' :: r) 
   · rename_i r2; exact absurd rfl (h r2)
   · rfl
 
-private theorem floatExpPart_none (rest : List Char) (hr : delim rest = true) :
+private theorem floatExpPart_none (rest : List Char) (hr : numStop rest = true) :
     floatExpPart rest = some (none, rest) := by
   cases rest with
   | nil => rfl
   | cons d r =>
-    have ⟨h1, _⟩ := delim_head _ hr d r rfl
-    have he : d ≠ 'e' := by intro e; subst e; simp [isEnd, isLeading, isAsciiAlpha] at h1
-    have hE : d ≠ 'E' := by intro e; subst e; simp [isEnd, isLeading, isAsciiAlpha] at h1
+    obtain ⟨_, _, he, hE, _⟩ := numStop_head _ hr d r rfl
     simp [floatExpPart, he, hE]
 
 private theorem floatExpPart_some (E : Char) (sg : Option Bool) (ep rest : List Char) (hE : E = 'e' ∨ E = 'E')
-    (hep : Spec.isLooseDigitString 10 ep = true) (hr : delim rest = true) :
+    (hep : Spec.isLooseDigitString 10 ep = true) (hr : numStop rest = true) :
     floatExpPart (E :: (signChars sg ++ (ep ++ rest))) = some (some (signNeg sg, ep), rest) := by
-  obtain ⟨hrun, hne, hd⟩ := numRun_loose 10 (by omega) ep rest hep hr
+  obtain ⟨hrun, hne, hd⟩ := numRun_loose10 ep rest hep (numStop_stops_num10 rest hr)
   have hdne : runDigits ep ≠ [] := by
     rw [hd]
     simp only [Spec.isLooseDigitString, Bool.and_eq_true, List.any_eq_true] at hep
@@ -143,17 +141,18 @@ private theorem floatExpPart_some (E : Char) (sg : Option Bool) (ep rest : List 
 
 /-- **the extent of a real literal**: on the spelling assembled from an optional integer digit string, an
 optional `.` + optional fraction digit string, and an optional exponent (`e`/`E`, optional sign, digit
-string with separators anywhere), with at least one mantissa digit, followed by a delimiter, lexical's
+string with separators anywhere), with at least one mantissa digit, followed by text that does not continue
+a number (`numStop`; every delimiter qualifies, and so does the `i` of `1.0i`), lexical's
 float grammar consumes exactly the spelling and splits it into exactly these components. -/
 theorem floatExtent_real (ip fp : List Char) (dot : Bool) (exp : Option (Char × Option Bool × List Char))
     (rest : List Char)
     (hip : optDigitString ip = true) (hfp : optDigitString fp = true) (hdot : dot = false → fp = [])
     (hm : Spec.digitsOf ip ++ Spec.digitsOf fp ≠ [])
     (hexp : ∀ E sg ep, exp = some (E, sg, ep) → (E = 'e' ∨ E = 'E') ∧ Spec.isLooseDigitString 10 ep = true)
-    (hr : delim rest = true) :
+    (hr : numStop rest = true) :
     floatExtent (realSpelling ip dot fp exp ++ rest) =
       some (⟨ip, dot, fp, exp.isSome, expNegOf exp, expRunOf exp⟩, rest) := by
-  have hrn := delim_stops_num10 rest hr
+  have hrn := numStop_stops_num10 rest hr
   have htail_stop : stops (isNumChar 10) (expText exp ++ rest) = true := by
     cases exp with
     | none => simpa [expText] using hrn
@@ -197,7 +196,7 @@ theorem floatExtent_real (ip fp : List Char) (dot : Bool) (exp : Option (Char ×
       cases exp with
       | none =>
         simp only [expText, List.nil_append] at e
-        exact (delim_head _ hr '.' r2 e).2 rfl
+        exact (numStop_head _ hr '.' r2 e).2.1 rfl
       | some t =>
         obtain ⟨E, sg, ep⟩ := t
         have ⟨hE, _⟩ := hexp E sg ep rfl
@@ -320,16 +319,16 @@ private theorem cleanView_real (ip fp : List Char) (dot : Bool) (exp : Option (C
     (rest : List Char)
     (hip : optDigitString ip = true) (hfp : optDigitString fp = true) (hdot : dot = false → fp = [])
     (hexp : ∀ E sg ep, exp = some (E, sg, ep) → (E = 'e' ∨ E = 'E') ∧ Spec.isLooseDigitString 10 ep = true)
-    (hr : delim rest = true) : cleanView (realSpelling ip dot fp exp) rest = true := by
+    (hr : numStop rest = true) : cleanView (realSpelling ip dot fp exp) rest = true := by
   have hrest_head : rest.head? ≠ some '_' := by
     cases rest with
     | nil => simp
     | cons d r =>
-      have := (delim_head _ hr d r rfl).1
+      have := (numStop_head _ hr d r rfl).1
       intro e
       simp at e
       subst e
-      simp [isEnd, isLeading] at this
+      simp [isNumChar] at this
   have hexpc : cleanView (expText exp) rest = true := by
     apply cleanView_nodot
     intro c hc
@@ -382,7 +381,7 @@ private theorem parseFloatTok_real (ip fp : List Char) (dot : Bool) (exp : Optio
     (hip : optDigitString ip = true) (hfp : optDigitString fp = true) (hdot : dot = false → fp = [])
     (hm : Spec.digitsOf ip ++ Spec.digitsOf fp ≠ [])
     (hexp : ∀ E sg ep, exp = some (E, sg, ep) → (E = 'e' ∨ E = 'E') ∧ Spec.isLooseDigitString 10 ep = true)
-    (hr : delim rest = true) :
+    (hr : numStop rest = true) :
     parseFloatTok (realSpelling ip dot fp exp ++ rest) =
       match QV.DecF64.roundDec (realMantissa ip fp) (realExponent fp exp) with
       | some b => .ok (.float b) rest
@@ -396,7 +395,7 @@ private theorem parseFloatTok_real (ip fp : List Char) (dot : Bool) (exp : Optio
       .ok ⟨ip, dot, fp, exp.isSome, expNegOf exp, expRunOf exp⟩ rest := by
     obtain ⟨t', hv, hhd, _⟩ := lexicalView_append (realSpelling ip dot fp exp) rest
       (cleanView_real ip fp dot exp rest hip hfp hdot hexp hr)
-    have hr' : delim t' = true := by
+    have hr' : numStop t' = true := by
       cases t' with
       | nil => rfl
       | cons d r =>
@@ -405,7 +404,7 @@ private theorem parseFloatTok_real (ip fp : List Char) (dot : Bool) (exp : Optio
         | cons d2 r2 =>
           simp at hhd
           subst hhd
-          simpa [delim, stops] using hr
+          simpa [numStop, stops] using hr
     have hext' := floatExtent_real ip fp dot exp t' hip hfp hdot hm hexp hr'
     simp only [lexAndParseFloat, hv, hext']
     split
@@ -437,7 +436,8 @@ private theorem lower_not_prefix_of_not_alpha (d p : Char) (hp : p = 'b' ∨ p =
 /-- **C05 (real literals through `lex_token`)**: for every real literal spelling — optional integer digit
 string, optional `.` with optional fraction digit string, optional exponent (`e`/`E`, optional sign, digits
 with `_` anywhere), at least one mantissa digit, a point or an exponent present, any lengths — followed by
-a delimiter, the lexer produces exactly one `Float` token whose bits are the exact decimal value
+text that does not continue a number (`numStop`: any delimiter, or e.g. the `i` of `1.0i`), the lexer
+produces exactly one `Float` token whose bits are the exact decimal value
 `mantissa · 10^exponent` rounded to the nearest double (ties to even), consuming exactly the spelling; it
 FAILS when that value is not finite, and also when the integer part alone does not fit in 64 bits (the
 integer pre-pass of `lex_decimal_number`); it never yields an `Integer` token. -/
@@ -447,7 +447,7 @@ theorem C05_real_literal (ip fp : List Char) (dot : Bool) (exp : Option (Char ×
     (hm : Spec.digitsOf ip ++ Spec.digitsOf fp ≠ [])
     (hexp : ∀ E sg ep, exp = some (E, sg, ep) → (E = 'e' ∨ E = 'E') ∧ Spec.isLooseDigitString 10 ep = true)
     (hreal : dot = true ∨ exp.isSome = true)
-    (hr : delim rest = true) :
+    (hr : numStop rest = true) :
     lexToken (realSpelling ip dot fp exp ++ rest) =
       if 2 ^ 64 ≤ Spec.posValue 10 (Spec.digitsOf ip) then .failure
       else match QV.DecF64.roundDec (realMantissa ip fp) (realExponent fp exp) with
